@@ -121,7 +121,7 @@ Inductive meth :=
 | M_reverse | M_append | M_iir | M_iirCombine | M_visit | M_fsm | M_top | M_skip | M_number | M_present
 | M_set | M_size | M_first | M_single | M_last | M_eval | M_movingWindow | M_movingWindowRemove | M_multiUse
 | M_len | M_string | M_trim | M_toLower | M_toUpper | M_contains | M_indexOf | M_split | M_cut
-| M_replace | M_toInt
+| M_replace | M_toInt | M_toFloat
 | M_get | M_put | M_isAvail | M_list
 | M_fork            (* pseudo: let w = <steps before>; [w.<branch 1>, w.<branch 2>, ..., w, source] *)
 | M_plus            (* pseudo: receiver + argument *)
@@ -143,7 +143,7 @@ Definition meth_name (m : meth) : name :=
   | M_movingWindow => nm_movingWindow | M_movingWindowRemove => nm_movingWindowRemove | M_multiUse => nm_multiUse
   | M_len => nm_len | M_string => nm_string | M_trim => nm_trim | M_toLower => nm_toLower
   | M_toUpper => nm_toUpper | M_contains => nm_contains | M_indexOf => nm_indexOf | M_split => nm_split
-  | M_cut => nm_cut | M_replace => nm_replace | M_toInt => nm_toInt
+  | M_cut => nm_cut | M_replace => nm_replace | M_toInt => nm_toInt | M_toFloat => nm_toFloat
   | M_get => nm_get | M_put => nm_put | M_isAvail => nm_isAvail | M_list => nm_list
   | M_fork => [35; 102; 111; 114; 107]%N
   | M_plus => [43]%N
@@ -163,7 +163,7 @@ Definition list_meths : list (meth * Z) :=
 
 Definition string_meths : list (meth * Z) :=
   [(M_len, 0); (M_string, 0); (M_trim, 0); (M_toLower, 0); (M_toUpper, 0); (M_contains, 1);
-   (M_indexOf, 1); (M_split, 1); (M_cut, 2); (M_replace, 2); (M_toInt, 0)].
+   (M_indexOf, 1); (M_split, 1); (M_cut, 2); (M_replace, 2); (M_toInt, 0); (M_toFloat, 0)].
 
 Definition map_meths : list (meth * Z) :=
   [(M_accept, 1); (M_map, 1); (M_list, 0); (M_size, 0); (M_isAvail, -1); (M_get, 1); (M_put, 2);
@@ -179,7 +179,7 @@ Definition model_table : list (N * list (meth * Z)) :=
 Definition unmodelled_table : list (N * list name) :=
   [(5%N, [nm_replaceList; nm_iirApply; nm_string; nm_createInterpolation; nm_linearReg;
           nm_binning; nm_binning2d; nm_collectBinning]);
-   (3%N, [nm_behind; nm_behindList; nm_toFloat]);
+   (3%N, [nm_behind; nm_behindList]);
    (6%N, [nm_replaceMap; nm_string]);
    (7%N, [nm_args; nm_invoke; nm_string])].
 
@@ -306,6 +306,7 @@ Definition run_string (s : str) (m : meth) (args : list arg) : res pv :=
   | M_cut, [p; n] => with_int p (fun p => with_int n (fun n => Ok (PV (VStr (str_cut s p n)))))
   | M_replace, [o; n] => with_str o (fun o => with_str n (fun n => Ok (PV (VStr (str_replace s o n)))))
   | M_toInt, [] => okV (str_to_int s)
+  | M_toFloat, [] => okV (str_to_float s)
   | _, _ => Unsup
   end.
 
@@ -400,11 +401,14 @@ Definition run_src (s : src) : res pv :=
   match s with
   | SrcV v => Ok (PV v)
   | SrcStatic f args =>
+      match run_round_static f args with
+      | Some r => match args with [_] => okV r | _ => Err None end
+      | None =>
       match static_arity f with
       | Some (Fixed n) => if Nat.eqb n (length args) then okV (run_static f args) else Err None
       | Some VarArgs => okV (run_static f args)
       | None => Unsup
-      end
+      end end
   end.
 
 (* steps = pre ++ [fork] ++ branch1 ++ [fork] ++ branch2 ...: the first component are the steps
@@ -947,6 +951,7 @@ Definition modelled_statics : list name :=
    n_min; n_max; n_numbers].
 
 Definition statics_match (gen : list (name * Z)) : bool :=
+  forallb (fun n => match assoc n gen with Some a => a =? 1 | None => false end) [n_round; n_floor; n_ceil; n_trunc] &&
   forallb (fun n =>
     match assoc n gen, static_arity n with
     | Some a, Some (Fixed k) => a =? Z.of_nat k
